@@ -128,7 +128,7 @@ func (x *exec) compareStates(fr *frame, s0, mid, s1 *State, kind, label string, 
 				}
 				e0, e1 := x.h.get(s0, e, x.h.sorts[e]), s1.heap[e]
 				in := And(x.c.ICmp("<=", x.c.ILit(0), j), x.c.ICmp("<", j, App("s-len", a0)))
-				goal = And(goal, Imp(in, Eq(Sel(Sel(e1, App("s-ref", a1)), x.c.IAdd(App("s-off", a1), j)), Sel(Sel(e0, App("s-ref", a0)), x.c.IAdd(App("s-off", a0), j)))))
+				goal = And(goal, Imp(in, Eq(Sel(Sel(e1, App("s-ref", a1)), x.c.EIdx(App("s-off", a1), j)), Sel(Sel(e0, App("s-ref", a0)), x.c.EIdx(App("s-off", a0), j)))))
 			}
 		case strings.HasPrefix(n, "G!"):
 			if t0 == t1 {
